@@ -18,7 +18,7 @@ ID = "C14"
 FN = "segment_clip"
 RULE = (
     "full product: clip start x clip length (0 included) x duration x hop (None included) x include_incomplete, "
-    "all dyadic; plus, for every start/length/flag, every (duration, hop) pair in which at least one of the two is "
+    "all dyadic, each on a real-time recording and on a x10 time-expanded one; plus, for every start/length/flag, every (duration, hop) pair in which at least one of the two is "
     "non-positive. Per valid case four calls: the call under test, the same call again, the same call on a parent "
     "with another uuid and equal bounds, and the same call with twice the hop (windows with equal bounds must get "
     "equal ids); with include_incomplete a fifth call with the same hop and twice the duration (equal bounds <=> equal "
@@ -111,6 +111,8 @@ def cases_of(tier, s, L):
         for h in durs + [None]:
             for incl in (False, True):
                 yield {"s": s, "L": L, "d": d, "h": h, "incl": incl}
+                # the same case on a time-expanded (x10) recording: clip and window times are recording times all the same
+                yield {"s": s, "L": L, "d": d, "h": h, "incl": incl, "te": 10.0}
                 # the same case on a scaled lattice (powers of two keep every operation exact): millisecond-sized
                 # windows, where bounds differ only in the third decimal, and kilosecond-sized ones
                 for sc in SCALES[tier]:
@@ -136,14 +138,19 @@ def run_block(block, rec):
             rec.add(run_case(case))
 
 
-_REC = None
+_REC = {}
 
 
-def rec_():
-    global _REC
-    if _REC is None:
-        _REC = recording(duration=100.0)
-    return _REC
+def rec_(te=1.0):
+    """The recording of the clips: real-time (time_expansion 1) or time-expanded x10 (clip times stay recording times)."""
+    if te not in _REC:
+        _REC[te] = recording(duration=100.0, time_expansion=te)
+    return _REC[te]
+
+
+def te_of(case):
+    """Time expansion of the recording the case's clips belong to."""
+    return float(case.get("te", 1.0))
 
 
 def call(clip, d, h, incl):
@@ -168,7 +175,8 @@ def run_case(case):
     out = Out(case)
     s, L, d, h, incl = case["s"], case["L"], case["d"], case["h"], bool(case["incl"])
     e = s + L
-    parent = data.Clip(uuid=U("c14:clip:a"), recording=rec_(), start_time=s, end_time=e)
+    te = te_of(case)
+    parent = data.Clip(uuid=U("c14:clip:a"), recording=rec_(te), start_time=s, end_time=e)
     heff = d if h is None else h
 
     # ------------------------------------------------------------ non-positive duration / hop
@@ -271,7 +279,7 @@ def run_case(case):
 
     # ------------------------------------------------------------ ids
     r2 = call(parent, d, h, incl)
-    other = data.Clip(uuid=U("c14:clip:b"), recording=rec_(), start_time=s, end_time=e)
+    other = data.Clip(uuid=U("c14:clip:b"), recording=rec_(te), start_time=s, end_time=e)
     r3 = call(other, d, h, incl)
     r4 = call(parent, d, 2 * heff, incl)
     out.transitions = 4
